@@ -430,6 +430,15 @@ def corner_programs():
                "__eventFlag", "bflag", "vb")
     head = "(def (Report (x 0)) (c 1) (bflag true) (volatile vb false)) "
     out = []
+    # a rejected program whose Report block fails at its first member, then an accepted one with declarations outside the block
+    # (whatever the parser remembered of the failed attempt must not leak into the next compilation)
+    good = "(def (Report (x 0)) (cap 10) (volatile vc 3)) (when true (:= Report.x (+ cap vc)) (report))"
+    for bad in ("(def (Report (1bad 0)) (c 1)) (when true (report))", "(def (Report ()) (c 1)) (when true (report))",
+                "(def (Report) (c 1)) (when true (report))", "(def (Report (x)) (c 1)) (when true (report))",
+                "(def (Report (volatile)) (c 1)) (when true (report))", "(def (Report (x 0) (1bad 0)) (c 1)) (when true (report))",
+                "(def (Report (x 0)) (1bad 0)) (when true (report))", "(def (Report (x 99999999999)) (c 1)) (when true (report))"):
+        out.append(bad)
+        out.append(good)
     for outer in OPS16:
         for inn in inner:
             for shape in ("(%s %s 3)" % (outer, inn), "(%s 3 %s)" % (outer, inn), "(%s %s %s)" % (outer, inn, inn)):
